@@ -402,10 +402,39 @@ inline Json genRecipe( Rng& rng, bool allow_positional, bool allow_subgroup, boo
 
 // ------------------------------------------------------- value generators
 
+/// C04 only: string values that are small text blocks (several lines, list
+/// items "- ...", words up to a few hundred characters): what the usage
+/// output prints as the default value of a destination and has to wrap
+inline bool  g_text_blocks = false;
+
+inline std::string genTextBlock( Rng& rng, const std::string& forbidden)
+{
+   std::string   s;
+   const size_t  lines = 1 + static_cast< size_t>( rng.below( 3));
+   for (size_t l = 0; l < lines; ++l)
+   {
+      if (l > 0) s += "\n";
+      if (l > 0 && rng.chance( 1, 2)) s += "- ";
+      const size_t  words = 1 + static_cast< size_t>( rng.below( 4));
+      for (size_t w = 0; w < words; ++w)
+      {
+         size_t  len = 1 + static_cast< size_t>( rng.below( 10));
+         if (rng.chance( 2, 5)) len = static_cast< size_t>( rng.chance( 2, 3) ? rng.range( 40, 170) : rng.range( 170, 330));
+         if (w > 0) s += " ";
+         s += std::string( len, static_cast< char>( 'a' + rng.below( 26)));
+      }
+   }
+   for (auto & c : s)
+      if (forbidden.find( c) != std::string::npos) c = 'x';
+   return s;
+}
+
 inline std::string genStringValue( Rng& rng, const std::string& forbidden, bool hostile)
 {
    static const char  plain[] = "abcdefghijklmnopqrstuvwxyzABCXYZ0123456789_";
    static const char  special[] = " '\"\\ :.";
+   if (hostile && g_text_blocks && rng.chance( 1, 6))
+      return genTextBlock( rng, forbidden);
    std::string   s;
    const size_t  len = 1 + static_cast< size_t>( rng.below( hostile ? 12 : 6));
    for (size_t k = 0; k < len; ++k)
